@@ -1,12 +1,230 @@
-//! C08 — ops evaluated on the real code and the generator of their inputs.
-#![allow(unused_imports, dead_code, clippy::all)]
+//! C08 — `FloydWarshall::distances` on the real code.
+//!
+//!   fw_dist <[wi n warcs]>  =>  panic
+//!                            |  <rows> <flat> <bfm> <dij>
+//!
+//! * `rows`  = `[[dist[(u, v)] for v] for u]`, read through the PAIR index of `DistanceMatrix`
+//! * `flat`  = `dist.dist` (the public flat vector), read independently of the pair index
+//! * `bfm`   = for every source `s`: the row the REAL `BellmanFordMoore::new(&d, s).distances()`
+//!             returns, or `none` (negative circuit reported)
+//! * `dij`   = `na` when some weight is negative, else for every source the row of the REAL
+//!             `DijkstraDist::new(&d_usize, once(s)).distances()`
+//!
+//! `isize::MAX` / `usize::MAX` are printed as the atom `inf`.
+#![allow(clippy::all)]
 
 use crate::graphs::{self, Desc};
 use crate::rng::Rng;
 use crate::value::V;
+use graaf::{BellmanFordMoore, DijkstraDist, FloydWarshall};
+use std::collections::BTreeMap;
+use std::iter::once;
 
-pub fn eval(_op: &str, _args: &[V]) -> Option<Vec<V>> {
-    None
+fn ent(x: isize) -> V {
+    if x == isize::MAX { V::atom("inf") } else { V::i(x) }
 }
 
-pub fn gen(_rng: &mut Rng, _thorough: bool, _emit: &mut dyn FnMut(String)) {}
+fn entu(x: usize) -> V {
+    if x == usize::MAX { V::atom("inf") } else { V::u(x) }
+}
+
+pub fn eval(op: &str, args: &[V]) -> Option<Vec<V>> {
+    match op {
+        "fw_dist" => {
+            let [d] = args else { return None };
+            let desc = Desc::parse(d)?;
+            if desc.repr != "wi" {
+                return None;
+            }
+            // a panic anywhere below (construction, `DistanceMatrix::new` on order 0) is the
+            // outcome `panic` (caught in main.rs)
+            let digraph = desc.build_wi();
+            let n = desc.order();
+            let mut fw = FloydWarshall::new(&digraph);
+            let dist = fw.distances();
+            let rows = V::L((0..n)
+                .map(|u| V::L((0..n).map(|v| ent(dist[(u, v)])).collect()))
+                .collect());
+            let flat = V::L(dist.dist.iter().map(|&x| ent(x)).collect());
+            let bfm = V::L((0..n)
+                .map(|s| {
+                    let mut b = BellmanFordMoore::new(&digraph, s);
+                    match b.distances() {
+                        None => V::none(),
+                        Some(r) => V::L(r.iter().map(|&x| ent(x)).collect()),
+                    }
+                })
+                .collect());
+            let dij = if desc.weights.iter().all(|&w| w >= 0) {
+                let du = desc.build_wu();
+                V::L((0..n)
+                    .map(|s| V::L(DijkstraDist::new(&du, once(s)).distances().into_iter().map(entu).collect()))
+                    .collect())
+            } else {
+                V::atom("na")
+            };
+            Some(vec![rows, flat, bfm, dij])
+        }
+        _ => None,
+    }
+}
+
+// ------------------------------------------------------------------------------- generator
+
+/// Quick precondition check (own Bellman-Ford from a virtual super-source).
+fn has_neg_cycle(n: usize, arcs: &BTreeMap<(usize, usize), i64>) -> bool {
+    let mut d = vec![0i64; n];
+    for round in 0..=n {
+        let mut changed = false;
+        for (&(u, v), &w) in arcs {
+            if d[u] + w < d[v] {
+                d[v] = d[u] + w;
+                changed = true;
+            }
+        }
+        if !changed {
+            return false;
+        }
+        if round == n {
+            return true;
+        }
+    }
+    false
+}
+
+fn show(rng: &mut Rng, n: usize, arcs: &BTreeMap<(usize, usize), i64>) -> String {
+    let mut list: Vec<((usize, usize), i64)> = arcs.iter().map(|(&k, &w)| (k, w)).collect();
+    rng.shuffle(&mut list);
+    let d = Desc {
+        repr: "wi".to_string(),
+        verts: (0..n).collect(),
+        arcs: list.iter().map(|&(k, _)| k).collect(),
+        weights: list.iter().map(|&(_, w)| i128::from(w)).collect(),
+    };
+    format!("fw_dist {}", d.to_v())
+}
+
+fn gen_n(rng: &mut Rng) -> usize {
+    let r = rng.below(100);
+    if r < 14 {
+        1
+    } else if r < 60 {
+        2 + rng.below(5)
+    } else if r < 90 {
+        7 + rng.below(8)
+    } else {
+        15 + rng.below(11)
+    }
+}
+
+/// The weighted arc set is symmetric (`w(u,v) = w(v,u)` wherever either exists): a transposed
+/// index could hide behind it.
+fn symmetric(arcs: &BTreeMap<(usize, usize), i64>) -> bool {
+    arcs.iter().all(|(&(u, v), &w)| arcs.get(&(v, u)) == Some(&w))
+}
+
+fn gen_one(rng: &mut Rng) -> (usize, BTreeMap<(usize, usize), i64>) {
+    let n = gen_n(rng);
+    let (_, shape) = graphs::gen_arcs(rng, n);
+    let mut arcs: BTreeMap<(usize, usize), i64> = BTreeMap::new();
+    match rng.below(10) {
+        // potentials: w' = w + p(u) - p(v), w >= 0: negative arcs, no negative circuit
+        0..=3 => {
+            let p: Vec<i64> = (0..n).map(|_| rng.range(0, 3)).collect();
+            for &(u, v) in &shape {
+                let w = rng.range(0, 6);
+                let _ = arcs.insert((u, v), w + p[u] - p[v]);
+            }
+        }
+        // non-negative (Dijkstra applies), zero weights included
+        4..=6 => {
+            for &(u, v) in &shape {
+                let _ = arcs.insert((u, v), rng.range(0, 9));
+            }
+        }
+        // negative weights on a DAG orientation of the shape (no circuit at all)
+        7 => {
+            let mut perm: Vec<usize> = (0..n).collect();
+            rng.shuffle(&mut perm);
+            for &(u, v) in &shape {
+                if perm[u] < perm[v] {
+                    let _ = arcs.insert((u, v), rng.range(-3, 9));
+                }
+            }
+        }
+        // free weights -3..9, rejection-sampled; repaired by raising negative weights
+        _ => {
+            for &(u, v) in &shape {
+                let w = if rng.chance(1, 5) { rng.range(-3, -1) } else { rng.range(0, 9) };
+                let _ = arcs.insert((u, v), w);
+            }
+            let mut tries = 0;
+            while has_neg_cycle(n, &arcs) {
+                tries += 1;
+                let keys: Vec<(usize, usize)> = arcs.iter().filter(|(_, &w)| w < 0).map(|(&k, _)| k).collect();
+                let k = *rng.pick(&keys);
+                let w = if tries > 200 { 0 } else { rng.range(-1, 9) };
+                let _ = arcs.insert(k, w);
+            }
+        }
+    }
+    // asymmetric by construction (19 of 20): raising a weight or dropping an arc never
+    // creates a negative circuit
+    if n >= 2 && symmetric(&arcs) && !rng.chance(1, 20) {
+        if arcs.is_empty() {
+            let u = rng.below(n);
+            let v = (u + 1 + rng.below(n - 1)) % n;
+            let _ = arcs.insert((u, v), rng.range(0, 9));
+        } else {
+            let keys: Vec<(usize, usize)> = arcs.keys().copied().collect();
+            let k = *rng.pick(&keys);
+            if rng.chance(1, 2) {
+                let _ = arcs.remove(&k);
+            } else {
+                *arcs.get_mut(&k).expect("key") += 1 + rng.range(0, 2);
+            }
+        }
+    }
+    (n, arcs)
+}
+
+/// All digraphs on `n` vertices whose arcs carry a weight from `ws` (or are absent), without
+/// negative circuit.
+fn exhaustive(rng: &mut Rng, n: usize, ws: &[i64], emit: &mut dyn FnMut(String)) {
+    let pairs: Vec<(usize, usize)> = (0..n).flat_map(|u| (0..n).filter(move |&v| v != u).map(move |v| (u, v))).collect();
+    let base = ws.len() + 1;
+    let total = base.pow(pairs.len() as u32);
+    for code in 0..total {
+        let mut c = code;
+        let mut arcs = BTreeMap::new();
+        for &p in &pairs {
+            let d = c % base;
+            c /= base;
+            if d > 0 {
+                let _ = arcs.insert(p, ws[d - 1]);
+            }
+        }
+        if !has_neg_cycle(n, &arcs) {
+            emit(show(rng, n, &arcs));
+        }
+    }
+}
+
+pub fn gen(rng: &mut Rng, thorough: bool, emit: &mut dyn FnMut(String)) {
+    // (1) exhaustive small scopes
+    let all: Vec<i64> = (-3..=9).collect();
+    exhaustive(rng, 1, &all, emit);
+    exhaustive(rng, 2, &all, emit);
+    if thorough {
+        exhaustive(rng, 3, &[-2, -1, 1, 3], emit);
+    } else {
+        exhaustive(rng, 3, &[-1, 2], emit);
+    }
+    // (2) random families
+    let n_random = if thorough { 8_000 } else { 450 };
+    for _ in 0..n_random {
+        let (n, arcs) = gen_one(rng);
+        debug_assert!(!has_neg_cycle(n, &arcs));
+        emit(show(rng, n, &arcs));
+    }
+}
